@@ -122,6 +122,18 @@ def worker(args, scratch):
                 except Exception as e:  # noqa
                     status = "error:%r" % (e,)
                     resp = None
+                if resp is None and case.get("reused_connection") and not common.is_timeout(status) and not w.upstream(vid):
+                    # the kept-alive connection had been closed by the agent (it may close after any answer, e.g. a refusal with
+                    # 'Connection: close'): the same request on a fresh connection of the same caller
+                    bump("kept_alive_connection_found_closed")
+                    conn.close()
+                    conn = w.open(dest, ident)
+                    try:
+                        conn.send(raw)
+                        resp = conn.read_response(method.encode())
+                        status = resp.status
+                    except Exception as e:  # noqa
+                        status = "error:%r" % (e,)
                 if kw.get("pool_key") and resp is not None and r.random() < 0.7 and kw["pool_key"] not in pool:
                     pool[kw["pool_key"]] = conn     # keep it open for a later request (possibly under another policy)
                 else:
